@@ -21,6 +21,25 @@ CHECKS["C02"] = dict(
     design_ref="DESIGN.md section 4 (C02)",
 )
 
+CHECKS["C06"] = dict(
+    category="proof",
+    text="The rejection loop, the per-checkpoint loop and the scan over checkpoints of the real RejectionLoop / solve_adaptive_save_at are verified with loop invariants (Hoare rules executed on the real body) against abstract solver/error/controller contracts, for every accept/reject history, checkpoint layout, eps, dt0, clip on/off; the two real controllers are verified against the abstract Control contract with symbolic parameters.",
+    note="termination is not claimed; solver/error/controller are abstract objects constrained only by their contracts (real solver.step frame: C02; real interpolation frames: C05; real controllers: here); test_util.solve_adaptive_save_every_step (native Python while) is not covered; scalar real arithmetic; power atoms use monotonicity axioms",
+    design_ref="DESIGN.md section 4 (C06)",
+)
+CHECKS["C07"] = dict(
+    category="proof",
+    text="estimate_error_norm of both estimators is verified to return norm^(-1/(q+1)) of the calibrated residual/state standard deviation scaled by dt^n/n! with reference max(|u_prev|,|u_new|), with cached or re-evaluated linearisation exactly as configured, and to be independent of the previous covariance and of backward models; both error norms are verified against their definitions.",
+    note="quantities are characterised by squares and signs (std^2 = diag cov, sigma^2 K = |w|^2) rather than closed-form roots; error norm is abstract inside the estimator contract; invariance under the base scale follows from the homogeneity of the stated formulas (not separately machine-checked); n! is taken from the repo's own factorial (float literal)",
+    design_ref="DESIGN.md section 4 (C07)",
+)
+CHECKS["C05"] = dict(
+    category="proof",
+    text="interpolate_fwd / interpolate_fwd_at_t1 of the real solver are verified for the three strategies and factorisations: the reported value is the exact Gaussian prediction from the left state, the state handed back for time stepping keeps the right state's marginal and all bookkeeping, and (with C02/C06/C07 frame clauses) stepping, error estimation and control do not depend on backward models or checkpoints.",
+    note="independence of the checkpoint set is the composition of these contracts with the C06 invariants and the C09 composition law (Chapman-Kolmogorov) -- that last composition step is a lemma about the spec, stated in DESIGN.md, not a separate machine-checked obligation; offgrid_marginals (searchsorted indexing) is not covered",
+    design_ref="DESIGN.md section 4 (C05)",
+)
+
 NOT_APPLICABLE = {
     "C01": "global accuracy / convergence order against the true ODE solution is not a postcondition of one call nor a data-structure invariant; no contract over the code implies it (DESIGN section 4, C01)",
 }
